@@ -310,7 +310,7 @@ Proof.
   - ext_crush IH.
   - (* Group *) eapply group_sem_ext; eauto.
   - (* Or *) eapply choice_sem_ext; eauto.
-  - eapply choice_sem_ext; eauto.
+  - destruct gs; [discriminate|]. eapply choice_sem_ext; eauto.
   - destruct gs; [discriminate|]. eapply choice_sem_ext; eauto.
   - (* OrNot *) ext_crush IH.
   - (* Not *) destruct (sem n g ctx p None) as [[[[[? ?] ?]|] ?]|]; try discriminate.
